@@ -4,6 +4,11 @@
 //!   G n  goto n;   IG n  if c goto n;   EG n  else goto n;   EIG n  else if c goto n;
 //!   L n  n:        V n   var n: i32 = 0;   U n  x = n;   S  x = x + 1;   LP  loop;
 //!   I    if c      (naked then-branch follows)       E  else  (naked else-branch follows)
+//! Added by the dimension audit (docs/notes-flat.md):
+//!   F    `} fn g<k>() { var x: i32 = 0;`  one line: ends a function body and opens the next one
+//!   RV n  the result expression `n` (only after `L return` at the end of a function body)
+//!   W n  n = x;    (a use as assignment target)      VR n  var n: i32 = n;  (use in its own initialiser)
+//!   M    h();      (a call statement)                V with an empty name: a fresh declaration
 //!
 //! `render` turns items into source, `project` turns the AST the real parser
 //! built back into items (so that recorded traces log what the compiler saw).
@@ -42,6 +47,10 @@ impl Item {
             "L" => format!("{n}:"),
             "V" => format!("var {n}: i32 = 0;"),
             "U" => format!("x = {n};"),
+            "W" => format!("{n} = x;"),
+            "VR" => format!("var {n}: i32 = {n};"),
+            "RV" => format!("{n}"),
+            "M" => "h();".to_string(),
             "S" => "x = x + 1;".to_string(),
             "LP" => "loop;".to_string(),
             "I" => "if x == x".to_string(),
@@ -60,6 +69,52 @@ pub struct Rendered {
     pub param_lines: Vec<(String, usize)>,
 }
 
+/// Dimensions of the rendering that are no part of any rule (docs/notes-flat.md, "layouts").
+#[derive(Debug, Clone, Default)]
+pub struct Layout {
+    /// labels declared by a function `decoy` that precedes everything (C04 "into another function")
+    pub decoy: Vec<String>,
+    /// the constants follow the last function instead of preceding the first
+    pub consts_after: bool,
+    /// every function has a result: `-> i32` and ends with `return: x`
+    pub ret: bool,
+    /// the first function has a leading parameter `p0: i32` (on the line of `fn f(`)
+    pub pparam: bool,
+    /// a comment at the end of every item line
+    pub comments: bool,
+    /// the file does not end with a newline (its last byte is the `}` of the last function)
+    pub no_final_newline: bool,
+    /// label put in front of the `}` that ends every function but the last one (C06: gotos target `z`)
+    pub end_label: Option<String>,
+    /// names are replaced consistently (labels named like the variable, the function, ...)
+    pub rename: Vec<(String, String)>,
+    /// 0: `var n: i32 = 0;`  1: `var n: i32;`  2: `var n = 0i32;`
+    pub var_form: u8,
+}
+
+impl Layout {
+    pub fn from_json(v: &serde_json::Value) -> Layout {
+        let b = |k: &str| v[k].as_bool().unwrap_or(false);
+        Layout {
+            decoy: Vec::new(),
+            consts_after: b("consts_after"),
+            ret: b("ret"),
+            pparam: b("pparam"),
+            comments: b("comments"),
+            no_final_newline: b("nonl"),
+            end_label: v["end_label"].as_str().map(|s| s.to_string()),
+            rename: v["rename"]
+                .as_object()
+                .map(|m| m.iter().map(|(k, x)| (k.clone(), x.as_str().unwrap_or("").to_string())).collect())
+                .unwrap_or_default(),
+            var_form: v["var_form"].as_u64().unwrap_or(0) as u8,
+        }
+    }
+    fn name(&self, n: &str) -> String {
+        self.rename.iter().find(|(a, _)| a == n).map(|(_, b)| b.clone()).unwrap_or_else(|| n.to_string())
+    }
+}
+
 /// Render a function `f` with the given constants (each `const n: i32 = 7;`),
 /// parameters (each `n: i32`, one per line) and body items.
 pub fn render(items: &[Item], consts: &[String], params: &[String]) -> Rendered {
@@ -69,13 +124,18 @@ pub fn render(items: &[Item], consts: &[String], params: &[String]) -> Rendered 
 /// As `render`, preceded by a function `decoy` that declares the given labels: labels of another
 /// function must never be legal targets (C04 "into another function").
 pub fn render_with_decoy(items: &[Item], consts: &[String], params: &[String], decoy: &[String]) -> Rendered {
+    render_layout(items, consts, params, &Layout { decoy: decoy.to_vec(), ..Default::default() })
+}
+
+/// The general renderer: one item per line; item p is on line off + p whatever the layout is.
+pub fn render_layout(items: &[Item], consts: &[String], params: &[String], lay: &Layout) -> Rendered {
     let mut src = String::new();
     let mut line = 0;
-    if !decoy.is_empty() {
+    if !lay.decoy.is_empty() {
         src.push_str("fn decoy()\n{\n");
         line += 2;
-        for l in decoy {
-            src.push_str(&format!("{l}:\n"));
+        for l in &lay.decoy {
+            src.push_str(&format!("{}:\n", lay.name(l)));
             line += 1;
         }
         src.push_str("}\n");
@@ -83,12 +143,26 @@ pub fn render_with_decoy(items: &[Item], consts: &[String], params: &[String], d
     }
     let mut const_lines = Vec::new();
     let mut param_lines = Vec::new();
-    for c in consts {
-        src.push_str(&format!("const {c}: i32 = 7;\n"));
-        line += 1;
-        const_lines.push((c.clone(), line));
+    if !lay.consts_after {
+        for c in consts {
+            src.push_str(&format!("const {c}: i32 = 7;\n"));
+            line += 1;
+            const_lines.push((c.clone(), line));
+        }
     }
-    src.push_str("fn f(\n");
+    // a function has a result when the layout says so or when its body ends with `L return`, `RV n`
+    let seg_has_result = |start: usize| -> bool {
+        let end = items[start..].iter().position(|x| x.kind == "F").map(|e| start + e).unwrap_or(items.len());
+        lay.ret || (end > start && items[end - 1].kind == "RV")
+    };
+    let arrow = |yes: bool| if yes { " -> i32" } else { "" };
+    let result = arrow(seg_has_result(0));
+    let comma0 = if params.is_empty() { "" } else { "," };
+    if lay.pparam {
+        src.push_str(&format!("fn f(p0: i32{comma0}\n"));
+    } else {
+        src.push_str("fn f(\n");
+    }
     line += 1;
     for (i, p) in params.iter().enumerate() {
         let comma = if i + 1 < params.len() { "," } else { "" };
@@ -96,22 +170,48 @@ pub fn render_with_decoy(items: &[Item], consts: &[String], params: &[String], d
         line += 1;
         param_lines.push((p.clone(), line));
     }
-    src.push_str(")\n{\nvar x: i32 = 0;\n");
+    src.push_str(&format!("){result}\n{{\nvar x: i32 = 0;\n"));
     line += 3;
     let off = line;
-    let mut depth = 1;
-    for it in items {
-        if it.kind == "C" {
-            depth -= 1;
+    let mut nfn = 0;
+    // the brace that ends a function body; a body that ends with its own result expression needs no `return: x`
+    let close = |own: bool| if lay.ret && !own { "return: x }" } else { "}" };
+    for (i, it) in items.iter().enumerate() {
+        let text = match it.kind.as_str() {
+            "F" => {
+                nfn += 1;
+                let lab = lay.end_label.as_ref().map(|l| format!("{l}: ")).unwrap_or_default();
+                let own = i > 0 && items[i - 1].kind == "RV";
+                format!("{lab}{} fn g{nfn}(){} {{ var x: i32 = 0;", close(own), arrow(seg_has_result(i + 1)))
+            }
+            "V" if lay.var_form == 1 => format!("var {}: i32;", lay.name(&it.name)),
+            "V" if lay.var_form == 2 => format!("var {} = 0i32;", lay.name(&it.name)),
+            _ => Item::new(&it.kind, &lay.name(&it.name)).line(),
+        };
+        src.push_str(&text);
+        if lay.comments {
+            src.push_str(&format!(" // {} goto x; }} {{ c{i}", it.kind.to_lowercase()));
         }
-        let _ = depth;
-        src.push_str(&it.line());
         src.push('\n');
-        if matches!(it.kind.as_str(), "O" | "IO" | "EO" | "EIO") {
-            depth += 1;
+    }
+    let own_result = items.last().map(|x| x.kind == "RV").unwrap_or(false);
+    src.push_str(close(own_result));
+    src.push('\n');
+    line += items.len() + 1;
+    if items.iter().any(|x| x.kind == "M") {
+        src.push_str("fn h()\n{\n}\n");
+        line += 3;
+    }
+    if lay.consts_after {
+        for c in consts {
+            src.push_str(&format!("const {c}: i32 = 7;\n"));
+            line += 1;
+            const_lines.push((c.clone(), line));
         }
     }
-    src.push_str("}\n");
+    if lay.no_final_newline {
+        src.pop();
+    }
     Rendered { source: src, off, const_lines, param_lines }
 }
 
@@ -151,11 +251,32 @@ impl<'a> Projector<'a> {
 
     fn statement(&mut self, s: &Statement) {
         match s {
-            Statement::Declaration { name, location, .. } => self.push("V", &name.name, location.line_number),
+            Statement::Declaration { name, value, location, .. } => {
+                // `var n: i32 = n;` reads n in its own initialiser
+                let reflexive = match value {
+                    Some(Expression::Deref { reference, .. }) if reference.is_trivial() => {
+                        reference.base.as_ref().map(|x| x.name == name.name).unwrap_or(false)
+                    }
+                    _ => false,
+                };
+                self.push(if reflexive { "VR" } else { "V" }, &name.name, location.line_number)
+            }
             Statement::Assignment { reference, value, location } => {
                 let base = reference.base.as_ref().map(|x| x.name.clone()).unwrap_or_default();
-                if base != "x" || !reference.is_trivial() {
+                if !reference.is_trivial() {
                     self.ok = false;
+                }
+                if base != "x" {
+                    // `n = x;`
+                    match value {
+                        Expression::Deref { reference, .. }
+                            if reference.is_trivial() && reference.base.as_ref().map(|x| x.name == "x").unwrap_or(false) =>
+                        {
+                            self.push("W", &base, location.line_number)
+                        }
+                        _ => self.ok = false,
+                    }
+                    return;
                 }
                 match value {
                     Expression::Deref { reference, .. } if reference.is_trivial() => {
@@ -166,7 +287,13 @@ impl<'a> Projector<'a> {
                     _ => self.ok = false,
                 }
             }
-            Statement::MethodCall { .. } => self.ok = false,
+            Statement::MethodCall { name, arguments, .. } => {
+                if name.name == "h" && arguments.is_empty() {
+                    self.push("M", "", name.location.line_number)
+                } else {
+                    self.ok = false
+                }
+            }
             Statement::Loop { location } => self.push("LP", "", location.line_number),
             Statement::Goto { label, location } => self.push("G", &label.name, location.line_number),
             Statement::Label { label, location } => self.push("L", &label.name, location.line_number),
@@ -185,7 +312,9 @@ impl<'a> Projector<'a> {
 }
 
 /// Project freshly parsed declarations (before scoping) onto the flat vocabulary.
-/// The first statement `var x: i32 = 0;` of the function is the fixed prelude and is skipped.
+/// The first statement `var x: i32 = 0;` of every function is the fixed prelude and is skipped; a
+/// function `g<k>` after the first one becomes an item `F` on the line of its name (the renderer puts
+/// the whole function head and the prelude on that line).
 pub fn project(source: &str, declarations: &[Declaration]) -> Option<Projection> {
     let mut consts = Vec::new();
     let mut params = Vec::new();
@@ -194,23 +323,61 @@ pub fn project(source: &str, declarations: &[Declaration]) -> Option<Projection>
     for d in declarations {
         match d {
             Declaration::Constant { name, .. } => consts.push((name.name.clone(), name.location.line_number)),
-            Declaration::Function { name, .. } if name.name == "decoy" => continue,
-            Declaration::Function { parameters, body: Ok(body), .. } if !seen_fn => {
-                seen_fn = true;
-                for par in parameters {
-                    let n = par.name.as_ref().ok()?;
-                    params.push((n.name.clone(), n.location.line_number));
+            Declaration::Function { name, .. } if name.name == "decoy" || name.name == "h" => continue,
+            Declaration::Function { name, parameters, body: Ok(body), .. } => {
+                if !seen_fn {
+                    if name.name != "f" {
+                        return None;
+                    }
+                    for par in parameters {
+                        let n = par.name.as_ref().ok()?;
+                        if n.name != "p0" {
+                            params.push((n.name.clone(), n.location.line_number));
+                        }
+                    }
+                } else {
+                    if !name.name.starts_with('g') || !parameters.is_empty() {
+                        return None;
+                    }
+                    p.push("F", "x", name.location.line_number);
                 }
                 let mut first = true;
                 for s in &body.statements {
                     if first {
                         first = false;
                         match s {
-                            Statement::Declaration { name, .. } if name.name == "x" => continue,
+                            Statement::Declaration { name: v, location, .. } if v.name == "x" => {
+                                if seen_fn && location.line_number != name.location.line_number {
+                                    return None;
+                                }
+                                continue;
+                            }
                             _ => return None,
                         }
                     }
                     p.statement(s);
+                }
+                if first {
+                    return None;
+                }
+                seen_fn = true;
+                // the result expression: an item of its own unless it is the layout's `return: x }`
+                if let Some(value) = &body.return_value {
+                    match value {
+                        Expression::Deref { reference, .. } if reference.is_trivial() => {
+                            let n = reference.base.as_ref().map(|x| x.name.clone()).unwrap_or_default();
+                            let location = &reference.location;
+                            let label_line = p.lines.last().copied().unwrap_or(0);
+                            if location.line_number == label_line && n == "x" {
+                                // `return: x }` of the layout: the label is no item either
+                                p.items.pop();
+                                p.lines.pop();
+                            } else {
+                                p.push("RV", &n, location.line_number);
+                            }
+                        }
+                        _ => return None,
+                    }
                 }
             }
             _ => return None,
@@ -267,6 +434,11 @@ pub fn expand(items: &[Item]) -> Vec<(String, String, usize)> {
             "EO" => { t("E", ""); t("O", ""); }
             "EIG" => { t("E", ""); t("I", ""); t("G", &n); }
             "EIO" => { t("E", ""); t("I", ""); t("O", ""); }
+            // the result expression is no statement; a new function starts with its prelude `var x`
+            "RV" => {}
+            "F" => { t("F", ""); t("V", "x"); }
+            "VR" => t("V", &n),
+            "W" | "U" => t("S", ""),
             k => t(k, &n),
         }
     }
